@@ -5,6 +5,7 @@ This module contains methods for exporting Kern files.
 """
 import math
 from collections import defaultdict
+from fractions import Fraction
 
 import numpy
 
@@ -198,13 +199,26 @@ class KernExporter(object):
             if "dots" in symbolic_duration.keys()
             else ""
         )
-        if "actual_notes" in symbolic_duration.keys() and "normal_notes":
-            kern_base = (
-                int(kern_base)
+        if (
+            "actual_notes" in symbolic_duration.keys()
+            and "normal_notes" in symbolic_duration.keys()
+        ):
+            # a string of zeros is a breve, long, maxima (1/2, 1/4, 1/8 as reciprocal)
+            recip = (
+                Fraction(1, 2 ** len(kern_base))
+                if int(kern_base) == 0
+                else Fraction(int(kern_base))
+            )
+            recip = (
+                recip
                 * symbolic_duration["actual_notes"]
                 / symbolic_duration["normal_notes"]
             )
-            kern_base = str(kern_base)
+            # kern reciprocals are integers or rational "numerator%denominator"
+            if recip.denominator == 1:
+                kern_base = str(recip.numerator)
+            else:
+                kern_base = "{}%{}".format(recip.numerator, recip.denominator)
         return kern_base + dots
 
     def duration_to_kern(self, element: spt.GenericNote) -> str:
